@@ -12,7 +12,7 @@ RULE = ("cases: 4 process kinds x models x mixtures x permeate modes x condition
         "scale factor s (2^j, j=-10..10, or log-uniform 1e-3..1e3) and trade-off factor k likewise; twins: (a) area and feed amount x s, "
         "(b) area x k with step length / k (no programme), (c) area, amount, step length changed one at a time for step 0. "
         "non-trivial = model returned, >= 3 steps, and in self-cooling mode the temperature moved by > 1e-6 relative; distinct = SHA-1 of the case JSON")
-ASSUMPTIONS = ["powers of two: relative tolerance 1e-13 (IEEE scaling is exact); general factors: 1e-9, asserted only when both runs used the same "
+ASSUMPTIONS = ["powers of two: relative tolerance 1e-13 (IEEE scaling is exact); general factors: 1e-7 (rounding of the inputs is amplified step after step by an ill-conditioned solver; measured 6e-9 after 5 steps), asserted only when both runs used the same "
                "number of driving-force evaluations in every step (otherwise the loop exit flipped on a last-bit difference and results "
                "legitimately differ by O(precision))"]
 
@@ -88,7 +88,7 @@ def check(case):
             require(not _is_pow2(sc), "the model returned, but with area and feed amount x %r (a power of two: exact scaling) it raised %r", sc, tw)
             classes.append("twin-a-raised")
         elif ev == ev0:
-            compare(base, tw, 1e-13 if _is_pow2(sc) else 1e-9, sc, 1.0, "area and amount x %r" % sc)
+            compare(base, tw, 1e-13 if _is_pow2(sc) else 1e-7, sc, 1.0, "area and amount x %r" % sc)
             classes.append("size-pow2" if _is_pow2(sc) else "size-general")
         else:
             classes.append("exit-flip")
@@ -100,7 +100,7 @@ def check(case):
                 require(not _is_pow2(k), "the model returned, but with area x %r and step length / %r (a power of two) it raised %r", k, k, tw)
                 classes.append("twin-b-raised")
             elif ev == ev0:
-                compare(base, tw, 1e-13 if _is_pow2(k) else 1e-9, 1.0, 1.0 / k, "area x %r, step length / %r" % (k, k))
+                compare(base, tw, 1e-13 if _is_pow2(k) else 1e-7, 1.0, 1.0 / k, "area x %r, step length / %r" % (k, k))
                 classes.append("tradeoff-pow2" if _is_pow2(k) else "tradeoff-general")
             else:
                 classes.append("exit-flip")
